@@ -202,6 +202,24 @@ def main(argv):
     }
     if getattr(mod, 'EXHAUSTIVE', False):
         cov['exhaustive'] = True
+    if tier == 'thorough' and not os.environ.get('COPIA_VERIF_OUT'):
+        # self-validation on seeded mutants of this property (scratch copies under mktemp, removed afterwards);
+        # informational: it validates the checker, it does not change the verdict on /repo
+        try:
+            sys.path.insert(0, os.path.join(VERIF, 'selftest'))
+            import mutate
+            res, stale = mutate.run_for_property(prop, jobs=8)
+            cov['selftest_mutants'] = {
+                'total': len(res), 'stale_patterns': stale,
+                'breaking_detected': sum(1 for r in res if not r['benign'] and r.get('detected')),
+                'breaking_total': sum(1 for r in res if not r['benign'] and not r['stale']),
+                'benign_silent': sum(1 for r in res if r['benign'] and r.get('silent')),
+                'benign_total': sum(1 for r in res if r['benign'] and not r['stale']),
+                'missed': [r['id'] for r in res if not r['stale'] and not (r.get('detected') or r.get('silent'))],
+            }
+            print('selftest: %s' % cov['selftest_mutants'])
+        except Exception as e:      # never let the self-test break the verdict
+            cov['selftest_mutants'] = {'error': str(e)}
     ev = {
         'property_id': prop, 'tier': tier, 'seed': seed, 'level': level, 'coverage': cov,
         'assumptions': list(getattr(mod, 'ASSUMPTIONS', [])),
